@@ -606,7 +606,11 @@ func (s *Silences) Maintenance(interval time.Duration, snapf string, stopc <-cha
 			return size, err
 		}
 		if size, err = s.Snapshot(f); err != nil {
-			f.Close()
+			// Closing the replaceFile would move the partially written
+			// temporary file over the last good snapshot: only close
+			// the underlying file and discard it.
+			f.File.Close()
+			os.Remove(f.Name())
 			return size, err
 		}
 		return size, f.Close()
